@@ -619,6 +619,17 @@ class Flow:
         self.snapshot(s, lc)
         return self.dom.store(self, s, lc, l, v, rhs, op, node)
 
+    def age_env(self, s, tag):
+        """The process was suspended: every local that holds a value *read from shared memory* before the
+        suspension now holds a possibly outdated copy.  Its value string is wrapped as pre(tag: ...) so that it
+        no longer compares equal to a fresh read of the same location."""
+        for k, v in list(s.env.items()):
+            if not isinstance(v, str) or v.startswith("pre(") or v.startswith("&"):
+                continue
+            if "->" in v and not re.fullmatch(r"[\w]+", v):
+                s.env[k] = "pre(%s: %s)" % (tag, v)
+        s._k = None
+
     def snapshot(self, s, lc):
         """A store to location lc: value strings that mention lc now denote the old value."""
         pat = re.compile(r"(?<![\w>.\]])" + re.escape(lc) + r"(?![\w\[@])")
